@@ -37,6 +37,12 @@ CONFIGS = {
 }
 
 
+# thorough = its own larger configurations plus every quick configuration one level deeper
+_own = set(n for (n, _, _) in CONFIGS['thorough'])
+CONFIGS['thorough'] = CONFIGS['thorough'] + [(name + ' [quick configuration, one level deeper]', params, depth + 1)
+                                             for (name, params, depth) in CONFIGS['quick'] if name not in _own]
+
+
 def main(tier, seed):
   return run(PROP, CLAUSE_PREFIXES, CONFIGS, tier, seed, RULE, ASSUME)
 
